@@ -8,6 +8,7 @@ from typing import Dict, List, Optional, Set, Tuple
 
 from ..cfg import CFG, Node
 from ..core import Ctx, RuleReport, rule
+from ..resolve import facts_ex, local_callees
 from ..src import AnalysisError, ClassInfo, FuncInfo, norm, try_fold, walk_local
 from .lexical import single_def
 
@@ -660,6 +661,43 @@ def r41(ctx: Ctx) -> RuleReport:
                     f'`{flag}` is read for every conjunct but a path continues the loop without assigning it ('
                     + ' -> '.join(repr(cfg.nodes[x]) for x in stale[-4:])[:200] + '): once set it stays set, so how an earlier separator was written '
                     'changes how a later role is read (a role that itself starts with "^" loses its first character)' if stale else '')
+    # the loop goes on to another conjunct only after a SYMBOL that starts with "^" was seen; the flag says whether the sign was glued to the role
+    for loop in [n for n in walk_local(pt.node) if isinstance(n, (ast.While, ast.For))]:
+        fl_assigns = [n for n in ast.walk(loop) if isinstance(n, ast.Assign) and isinstance(n.targets[0], ast.Name) and isinstance(n.value, ast.Constant)
+                      and isinstance(n.value.value, bool)]
+        for a in fl_assigns:
+            fx = facts_ex(ctx, pt, a)
+            srcs = {(f.replace(' ', ''), pol) for f, pol in fx}
+            tok = None
+            for f, pol in srcs:
+                if f.endswith(".text.startswith('^')"):
+                    tok = f[:-len(".text.startswith('^')")]
+            kx = f'penman._parse:_parse_triples: `{norm(a)}` (another conjunct follows) is reached only after a SYMBOL token that starts with "^"'
+            if tok is None or (f"{tok}.text.startswith('^')", True) not in srcs:
+                rep.violation(kx, pt.loc(a), f'the parser goes on to a further conjunct without having seen the conjunction sign (facts here: {sorted(f for f, p in fx if p)[:3]}): '
+                              f'`a(b, c) d(e, f)` is accepted as two triples, or the loop runs into the end of the input')
+                continue
+            type_ok = (f"{tok}.type!='SYMBOL'", False) in srcs or (f"{tok}.type=='SYMBOL'", True) in srcs
+            if not type_ok:
+                rep.violation(kx, pt.loc(a), f'the token is not known to be a SYMBOL here: a STRING such as "^x" also continues the conjunction')
+                continue
+            alone_t, alone_f = (f"{tok}.text=='^'", True) in srcs, (f"{tok}.text=='^'", False) in srcs
+            if a.value.value is True and alone_t:
+                rep.violation(kx + ' [glued]', pt.loc(a), 'the flag is set although the sign stands alone: the next role, if it begins with "^" itself, loses that character')
+            elif a.value.value is False and alone_f:
+                rep.violation(kx + ' [alone]', pt.loc(a), 'the flag is cleared although the sign is glued to the next role: the role keeps the sign as its first character')
+            elif alone_t or alone_f:
+                rep.ok(kx, pt.loc(a))
+            else:
+                rep.undecided(kx, pt.loc(a), 'no test whether the sign stands alone')
+    # before the first conjunct there is no sign to take off
+    for nm in {n.targets[0].id for n in walk_local(pt.node) if isinstance(n, ast.Assign) and isinstance(n.targets[0], ast.Name) and isinstance(n.value, ast.Constant)
+               and isinstance(n.value.value, bool)}:
+        inits = [n for n in pt.node.body if isinstance(n, ast.Assign) and isinstance(n.targets[0], ast.Name) and n.targets[0].id == nm and isinstance(n.value, ast.Constant)]
+        for i0 in inits:
+            rep.add(f'penman._parse:_parse_triples: `{nm}` starts out false (no conjunction sign precedes the first conjunct)', pt.loc(i0),
+                    'ok' if i0.value.value is False else 'violation',
+                    '' if i0.value.value is False else 'the role of the first conjunct loses a leading "^" that belongs to its name')
     # a leading "^" is taken off a role only when that token was seen to carry the conjunction sign (state from the previous conjunct)
     for f in local_callees(ctx, pt, depth=1):
         for n in walk_local(f.node):
@@ -675,6 +713,10 @@ def r41(ctx: Ctx) -> RuleReport:
                 continue
             fx = facts_ex(ctx, f, n)
             about_caret = cuts_caret or any(pol and fsrc.replace(' ', '') in (f"{nm}.startswith('^')", f"{nm}[0]=='^'", f"{nm}[:1]=='^'") for fsrc, pol in fx)
+            if not about_caret:
+                pmf = ctx.repo.parent_map(f.node)
+                par = pmf.get(id(n))
+                about_caret = isinstance(par, ast.If) and "'^'" in norm(par.test)
             if not about_caret:
                 continue
             state = sorted(fsrc for fsrc, pol in fx if pol and fsrc.isidentifier() and fsrc not in ('True', 'False', 'None'))
@@ -806,4 +848,172 @@ def r69(ctx: Ctx) -> RuleReport:
                         f'`{name}` holds text taken from the token stream, but the function can return without using it ('
                         + ' -> '.join(repr(cfg.nodes[x]) for x in path[-4:])[:220] + '): that token disappears from the parsed result, so formatting the tree does '
                         'not reproduce the text' if path else '')
+    return rep
+
+
+# ---------------------------------------------------------------------------------------------
+@rule('R98', 'the comment scanner records every "::key value" segment of every comment line and hands the map to the tree')
+def r98(ctx: Ctx) -> RuleReport:
+    rep = RuleReport('R98', r98.title, floor=3)
+    fi = ctx.repo.func('penman._parse', '_parse_comments')
+    stores = [n for n in walk_local(fi.node) if isinstance(n, ast.Assign) and isinstance(n.targets[0], ast.Subscript) and isinstance(n.targets[0].value, ast.Name)]
+    parts = [n for n in walk_local(fi.node) if isinstance(n, ast.Assign) and isinstance(n.value, ast.Call) and isinstance(n.value.func, ast.Attribute)
+             and n.value.func.attr in ('rpartition', 'partition', 'split', 'rsplit') and n.value.args and try_fold(n.value.args[0]) == (True, '::')]
+    if len(stores) != 1 or len(parts) != 1 or not isinstance(parts[0].targets[0], ast.Tuple) or len(parts[0].targets[0].elts) != 3:
+        rep.undecided(f'{fi.fq}: one `rest, found, segment = text.rpartition("::")` and one store metadata[key] = value', fi.loc(), f'{len(parts)} splits, {len(stores)} stores')
+        return rep
+    st, pt_ = stores[0], parts[0]
+    rest_v, found_v, seg_v = [norm(e) for e in pt_.targets[0].elts]
+    src_v = norm(pt_.value.func.value)
+    md = st.targets[0].value.id
+    fx = facts_ex(ctx, fi, st)
+    key = f'{fi.fq}: a segment is recorded exactly when the separator "::" was found'
+    pos = {f for f, pol in fx if pol}
+    neg = {f for f, pol in fx if not pol}
+    if found_v in neg:
+        rep.violation(key, fi.loc(st), f'the store runs when `{found_v}` is false, i.e. when no "::" was found: the text in front of the first key is recorded as a key and the real keys are skipped')
+    elif found_v in pos:
+        rep.ok(key, fi.loc(st))
+    else:
+        rep.violation(key, fi.loc(st), f'the store does not depend on `{found_v}`: a comment line without any "::" (an ordinary comment) is recorded as metadata')
+    # the scan goes on while text is left: the loop condition is the (positive) truth of the remaining text
+    loops = [n for n in walk_local(fi.node) if isinstance(n, ast.While) and any(x is pt_ for x in ast.walk(n))]
+    inner = min(loops, key=lambda n: len(list(ast.walk(n)))) if loops else None
+    key = f'{fi.fq}: a line is scanned until nothing is left of it'
+    if inner is None:
+        rep.undecided(key, fi.loc(), 'the split is not inside a while loop')
+    else:
+        t = inner.test
+        if rest_v == src_v and norm(t) == rest_v:
+            rep.ok(key, fi.loc(inner))
+        elif isinstance(t, ast.UnaryOp) and isinstance(t.op, ast.Not) and norm(t.operand) == rest_v:
+            rep.violation(key, fi.loc(inner), f'the loop runs while `{rest_v}` is EMPTY: a non-empty comment is never scanned, every metadata line is lost')
+        elif isinstance(t, ast.Constant):
+            rep.violation(key, fi.loc(inner), f'the loop condition is the constant {t.value!r}: ' + ('the scan never ends' if t.value else 'no comment is ever scanned, every metadata line is lost'))
+        else:
+            rep.undecided(key, fi.loc(inner), norm(t))
+    # the value is the rest of the segment after the first blank, right-stripped; the key is what precedes it
+    kv = [n for n in walk_local(fi.node) if isinstance(n, ast.Assign) and isinstance(n.value, ast.Call) and isinstance(n.value.func, ast.Attribute)
+          and n.value.func.attr == 'partition' and n.value.args and try_fold(n.value.args[0]) == (True, ' ') and norm(n.value.func.value) == seg_v]
+    key = f'{fi.fq}: key and value are the two sides of the first blank of the segment'
+    if len(kv) == 1 and isinstance(kv[0].targets[0], ast.Tuple) and len(kv[0].targets[0].elts) == 3:
+        k_v, _, v_v = [norm(e) for e in kv[0].targets[0].elts]
+        good = norm(st.targets[0].slice) == k_v and norm(st.value) in (f'{v_v}.rstrip()', v_v)
+        swapped = norm(st.targets[0].slice) == v_v
+        rep.add(key, fi.loc(st), 'ok' if good else ('violation' if swapped else 'undecided'), norm(st)[:60])
+    else:
+        rep.undecided(key, fi.loc(), 'no `key, _, value = segment.partition(" ")`')
+    # the map that is filled is the map that is returned
+    rets = [n for n in walk_local(fi.node) if isinstance(n, ast.Return)]
+    key = f'{fi.fq}: returns the map it filled'
+    if rets and all(r.value is not None and norm(r.value) == md for r in rets):
+        rep.ok(key, fi.loc(rets[0]))
+    else:
+        bad = next((r for r in rets if r.value is None or norm(r.value) != md), None)
+        rep.violation(key, fi.loc(bad) if bad is not None else fi.loc(), f'`{norm(bad) if bad is not None else "falls off the end"}`: the metadata read from the comments never reaches the tree')
+    return rep
+
+
+# ---------------------------------------------------------------------------------------------
+@rule('R99', 'the four documented ways to write the comma of a triple - role(a,b) role(a, b) role(a , b) role(a ,b) - each take their target from the right place; anything else after the source is an error')
+def r99(ctx: Ctx) -> RuleReport:
+    rep = RuleReport('R99', r99.title, floor=4)
+    fi = ctx.repo.func('penman._parse', '_parse_triple')
+    parts = [n for n in walk_local(fi.node) if isinstance(n, ast.Assign) and isinstance(n.targets[0], ast.Tuple) and len(n.targets[0].elts) == 3
+             and isinstance(n.value, ast.Call) and isinstance(n.value.func, ast.Attribute) and n.value.func.attr == 'partition'
+             and n.value.args and try_fold(n.value.args[0]) == (True, ',')]
+    if len(parts) != 1:
+        rep.undecided(f'{fi.fq}: `source, comma, rest = symbol.text.partition(",")`', fi.loc(), f'{len(parts)} such splits')
+        return rep
+    src_v, comma_v, rest_v = [norm(e) for e in parts[0].targets[0].elts]
+    # the name that is returned as the target
+    rets = [n for n in walk_local(fi.node) if isinstance(n, ast.Return) and isinstance(n.value, ast.Tuple) and len(n.value.elts) == 2]
+    if len(rets) != 1 or not isinstance(rets[0].value.elts[1], ast.Name):
+        rep.undecided(f'{fi.fq}: returns (source, target)', fi.loc(), f'{len(rets)} returns of a pair')
+        return rep
+    tgt_v = rets[0].value.elts[1].id
+    rep.add(f'{fi.fq}: the source is the text in front of the first comma', fi.loc(rets[0]), 'ok' if norm(rets[0].value.elts[0]) == src_v else 'undecided', norm(rets[0].value))
+    accepted = {}          # token names bound from tokens.accept(...)
+    for n in walk_local(fi.node):
+        if isinstance(n, ast.Assign) and isinstance(n.targets[0], ast.Name) and isinstance(n.value, ast.Call) and isinstance(n.value.func, ast.Attribute) \
+                and n.value.func.attr in ('accept', 'expect', 'next'):
+            accepted.setdefault(n.targets[0].id, []).append(n)
+
+    def facts(n):
+        return {(f.replace(' ', ''), pol) for f, pol in facts_ex(ctx, fi, n)}
+    assigns = [n for n in walk_local(fi.node) if isinstance(n, ast.Assign) and isinstance(n.targets[0], ast.Name) and n.targets[0].id == tgt_v
+               and not (isinstance(n.value, ast.Constant) and n.value.value is None)]
+    kinds = set()
+    for a in assigns:
+        fx = facts(a)
+        v = a.value
+        vs = norm(v).replace(' ', '')
+        key = f'{fi.fq}: `{norm(a)}` is justified by what was read'
+        if vs == rest_v:
+            kinds.add('fused')
+            ok_ = (rest_v, True) in fx
+            rep.add(key, fi.loc(a), 'ok' if ok_ else 'violation', '' if ok_ else f'the rest of the symbol is used as the target although it may be empty: role(a, b) yields the target ""')
+        elif isinstance(v, ast.Attribute) and v.attr == 'text' and isinstance(v.value, ast.Name) and v.value.id in accepted:
+            t = v.value.id
+            nonnull = (t, True) in fx or (f'{t}isnotNone', True) in fx or (f'{t}isNone', False) in fx
+            after_comma = ((comma_v, True) in fx and (rest_v, False) in fx) or any(f.endswith(".text==','") and pol for f, pol in fx)
+            # the token may have been read into the same name as the "," token before it: then the evidence sits at that read
+            prev = [d for d in accepted[t] if d.lineno < a.lineno]
+            if not after_comma and prev:
+                dfx = facts(max(prev, key=lambda d: d.lineno))
+                after_comma = any(f.endswith(".text==','") and pol for f, pol in dfx) or ((comma_v, True) in dfx and (rest_v, False) in dfx)
+            kinds.add('next-token')
+            if not nonnull:
+                rep.violation(key, fi.loc(a), f'`{t}` may be None here (accept found no SYMBOL/STRING): AttributeError instead of a triple without target')
+            elif not after_comma:
+                rep.violation(key, fi.loc(a), f'the next token is taken as the target although no comma was seen (neither at the end of the source symbol nor as a token of its own): '
+                              f'role(a b) is read as role(a, b)')
+            else:
+                rep.ok(key, fi.loc(a))
+        elif isinstance(v, ast.Subscript) and isinstance(v.value, ast.Attribute) and v.value.attr == 'text' and isinstance(v.value.value, ast.Name) \
+                and isinstance(v.slice, ast.Slice) and v.slice.lower is not None and try_fold(v.slice.lower) == (True, 1) and v.slice.upper is None:
+            t = v.value.value.id
+            kinds.add('glued')
+            lead = (f"{t}.text.startswith(',')", True) in fx or (f"{t}.text[0]==','", True) in fx
+            nonnull = (t, True) in fx or (f'{t}isnotNone', True) in fx
+            if not lead:
+                rep.violation(key, fi.loc(a), f'the first character of `{t}.text` is cut off although it is not known to be the comma: role(a b) is read as role(a, <b without its first letter>) '
+                              f'instead of being rejected')
+            elif not nonnull:
+                rep.violation(key, fi.loc(a), f'`{t}` may be None here')
+            else:
+                rep.ok(key, fi.loc(a))
+        else:
+            rep.undecided(key, fi.loc(a), vs[:50])
+    for want, what in (('fused', 'role(a,b)'), ('next-token', 'role(a, b) / role(a , b)'), ('glued', 'role(a ,b)')):
+        if want not in kinds:
+            rep.undecided(f'{fi.fq}: the spelling {what} is handled', fi.loc(), 'no assignment of that form found')
+    # a second symbol that is neither "," nor ",x" is an error at that token
+    raises = [n for n in walk_local(fi.node) if isinstance(n, ast.Raise)]
+    key = f'{fi.fq}: a token after the source that does not begin with a comma is rejected, at that token'
+    good = None
+    for r in raises:
+        fx = facts(r)
+        toks = [t for t in accepted if (t, True) in fx or (f'not{t}', False) in fx]
+        for t in toks:
+            if (f"{t}.text==','", False) in fx and (f"{t}.text.startswith(',')", False) in fx:
+                good = (r, t)
+    if good is None:
+        if raises:
+            rep.undecided(key, fi.loc(raises[0]), 'the raise is not under `tok.text != ","` and `not tok.text.startswith(",")`')
+        else:
+            rep.violation(key, fi.loc(), 'there is no raise left in the function: role(a b) is accepted (the second symbol is silently dropped), although the documented forms all have a comma')
+    else:
+        r, t = good
+        call = r.exc if isinstance(r.exc, ast.Call) else None
+        tokarg = None
+        if call is not None:
+            tokarg = next((k.value for k in call.keywords if k.arg == 'token'), call.args[1] if len(call.args) > 1 else None)
+        if tokarg is not None and norm(tokarg) == t:
+            rep.ok(key, fi.loc(r))
+        elif call is not None and tokarg is None:
+            rep.violation(key, fi.loc(r), f'the error is raised without token=: it is reported at the end of the last token read instead of at `{t}`, the token that does not fit '
+                          f'(line and column of the DecodeError are wrong)')
+        else:
+            rep.undecided(key, fi.loc(r), norm(r)[:60])
     return rep
